@@ -172,6 +172,9 @@ func c01RaceCall(m *vk.M, desc string, b Breaker, name string, kind string, name
 func TestVerifC01Race(t *testing.T) {
 	m := vk.New(t, "C01", "-race: 32 goroutines x 30 calls per phase on 3 named breakers (all Do*/Allow kinds, direct and via package-level named forms, fresh names created concurrently every 8th phase), phase regimes only-success / only-failure / mixed, optional concurrent clock advancer (<= 2 s per phase); per-call rejection/fallback/panic clauses; at quiescence history() == outcomes of admitted calls; no rejection in success-only phases starting below the threshold; Get(name) identity; non-trivial = the phase saw both admissions and rejections")
 	defer m.Done()
+	if c01SkipIfStuck(m) {
+		return
+	}
 	defer c01SetupClock(m)()
 	const G = 32
 	const callsPerG = 30
@@ -320,7 +323,11 @@ func TestVerifC01Race(t *testing.T) {
 			}(seeds[0] ^ 0x5bd1e995)
 			m.Count("phases_with_concurrent_clock_advance", 1)
 		}
-		wg.Wait()
+		if !vk.Within(c01Watchdog, wg.Wait) {
+			close(done)
+			c01ReportHang(m, desc)
+			return
+		}
 		close(done)
 		awg.Wait()
 
